@@ -243,7 +243,8 @@ def run(rep, tier):
     # parse-before-run: printing statements followed by a lexical or syntax error on a later line
     pbr = []
     tails = ["x := &", "y := 1 +", "print(1", "z := \"abc\\q\"", "w := 99999999999999999999", "if true {", "}", "print(1))",
-             "a := $\"$x\"", "b := \"$\"", "fn (", "else {}", "x = = 1", "for in xs {}", "1 2", "é", "x := 1 ..", "[1, 2", "@"]
+             "a := $\"$x\"", "b := \"$\"", "fn (", "else {}", "x = = 1", "for in xs {}", "1 2", "é", "x := 1 ..", "[1, 2", "@",
+             "x \"a" + "é" * 40 + "\"", "x $\"" + "✓" * 30 + "${y}\"", "x " + "long_identifier_" * 8, "x 1" + "0" * 17, "f(1) \"" + "😀" * 15 + "\""]
     for t in tails:
         for n in (1, 3):
             for sep in ("\n", ";"):
@@ -269,6 +270,32 @@ def run(rep, tier):
         elif o.code != 103 or o.out != b"" or not HDR1.match(o.err.decode("utf-8", "replace")):
             rep.violation("C03/parse-before-run", "a file with a lexical/syntax error must not run any statement and must be rejected with one located line: exit %s stdout %r stderr %r" % (o.code, o.out[:60], o.err[:120]),
                           {"src": t, "observed": o.brief(), "expected": {"exit": 103, "stdout": ""}})
+    # long flat inputs: the scanner and parser must not recurse per token / per skipped line
+    N = 60000 if tier == "quick" else 400000
+    long_inputs = [
+        ("blank_lines", "\n" * N + "print(1)\n", 0), ("semicolons", ";" * N + "print(1)\n", 0), ("comment_lines", "# c\n" * N + "print(1)\n", 0),
+        ("spaces", " " * N + "print(1)\n", 0), ("crlf_lines", "\r\n" * N + "print(1)\n", 0), ("mixed_terminators", ";\n \t;# x\n" * (N // 4) + "print(1)\n", 0),
+        ("statements", "x := 1\n" + "x = x\n" * (N // 4) + "print(x)\n", 0), ("long_string", "print(\"" + "aé" * (N // 2) + "\"->len())\n", 0),
+        ("long_identifier", "x" * N + " := 1\n", 0), ("long_int_zeros", "x := " + "0" * N + "1\n", 0), ("many_items", "print([" + "1, " * (N // 4) + "1]->type())\n", 0),
+        ("unclosed_parens", "(" * N, 103), ("closers", ")" * N, 103), ("long_comment", "#" + "é;" * N + "\nprint(1)\n", 0),
+        ("nested_parens", "print(" + "(" * (N // 8) + "1" + ")" * (N // 8) + ")\n", 0), ("illegal_after_long_run", "\n" * N + "&\n", 103),
+    ]
+    obs = core.run_many([{"src": t, "timeout": 60.0} for _, t, _ in long_inputs], chunksize=1)
+    for (name, t, want), o in zip(long_inputs, obs):
+        rep.evaluations += 1
+        rep.process_runs += 1
+        rep.tally("cli", "long_flat_input")
+        rep.distinct.add(core.sha(name + str(N))[:12])
+        if o.timeout:
+            rep.note_inconclusive("long flat input %s timed out" % name)
+        elif o.crashed or o.stack_overflow:
+            rep.violation("C03/long-input/" + name, "a long but flat input (%s, %d characters) kills the front end: exit %s %s" % (name, len(t), o.code, o.err.decode("utf-8", "replace")[-160:]),
+                          {"src": "(generated) " + name + " x " + str(N), "observed": {"exit": o.code, "stderr": o.err.decode("utf-8", "replace")[-400:]}})
+        elif o.code != want:
+            rep.violation("C03/long-input-exit/" + name, "long flat input %s: exit %s, expected %s" % (name, o.code, want),
+                          {"src": "(generated) " + name + " x " + str(N), "observed": {"exit": o.code, "stderr": o.err.decode("utf-8", "replace")[-400:]}})
+        elif name == "illegal_after_long_run" and not o.err.decode("utf-8", "replace").startswith("t.sd:%d:1:" % (N + 1)):
+            rep.violation("C03/long-input-position", "illegal character on line %d reported as %r" % (N + 1, o.err[:60]), {"src": "(generated) " + name})
     # invalid UTF-8
     bad_utf8 = [b"print(1)\n\xff\n", b"\x80", b"x := \"\xc3\"\n", b"print(1)\n# \xe2\x28\xa1\n", b"\xf0\x9f\x98\n", b"\xed\xa0\x80"]
     obs = core.run_many([{"src": b} for b in bad_utf8])
